@@ -1170,7 +1170,7 @@ fn fixed_curve(i: u8) -> (EnumColourEncoding, f32, Vec<f32>) {
         6 => (EnumColourEncoding::bt2100_hlg(rel), 1000.0, with_black), // black pixel, inverse OOTF
         7 => (EnumColourEncoding::bt2100_hlg(rel), 255.0, with_black),  // black pixel, OOTF
         8 => (fixed_encoding(9), 255.0, no_black),                      // gray HLG
-        _ => (fixed_encoding(11), 255.0, vec![1e-5, 1e-3, 0.1, 0.5, 1.0]), // exponent 10, underflowing decode
+        _ => (fixed_encoding(11), 255.0, no_black.iter().map(|v| v * 1e-3).collect()), // exponent 10, underflowing decode
     }
 }
 
